@@ -14,7 +14,12 @@ import (
 // `run` against the real code in repo, through go test -overlay (nothing is
 // written into the repository). It returns the exit status and the output.
 func runWitness(verif, repo, pkg, run string) (bool, string) {
-	dir := filepath.Join(verif, "witnesses", pkg)
+	return runOverlay(verif, repo, "witnesses", pkg, run, nil, "120s")
+}
+
+// runOverlay runs the test files of /verif/<sub>/<pkg>/ inside package <pkg> of the repository.
+func runOverlay(verif, repo, sub, pkg, run string, env []string, timeout string) (bool, string) {
+	dir := filepath.Join(verif, sub, pkg)
 	files, _ := filepath.Glob(filepath.Join(dir, "*_test.go"))
 	if len(files) == 0 {
 		return false, "no witness files in " + dir
@@ -31,9 +36,10 @@ func runWitness(verif, repo, pkg, run string) (bool, string) {
 	ovf := filepath.Join(scratch, "overlay.json")
 	b, _ := json.Marshal(ov)
 	os.WriteFile(ovf, b, 0o644)
-	cmd := exec.Command("go", "test", "-overlay", ovf, "-vet=off", "-count=1", "-timeout", "120s", "-run", run, "./"+pkg)
+	cmd := exec.Command("go", "test", "-overlay", ovf, "-vet=off", "-count=1", "-timeout", timeout, "-run", run, "./"+pkg)
 	cmd.Dir = repo
 	cmd.Env = append(os.Environ(), "GOFLAGS=-mod=mod", "GOPROXY=off", "GOSUMDB=off", "GOTOOLCHAIN=local")
+	cmd.Env = append(cmd.Env, env...)
 	out, err := cmd.CombinedOutput()
 	return err == nil, string(out)
 }
